@@ -157,11 +157,11 @@ def build_jobs(tier, seed0, d1=None, d2=None, two=True):
     subs.append(("one object, alphabet {S,I,N,P,F}: all histories to depth %d (%d histories, %d executed leaves) x 6 engine kinds"
                  % (d1, npre, len(lv)), npre * len(KINDS), len(lv) * len(KINDS)))
     d2 = d2 or (4 if tier == "quick" else 6)
-    lv2, npre2 = lc.leaves("STINPF", 1, d2)
+    lv2, npre2 = lc.leaves("STINZPF", 1, d2)
     k2 = [KINDS[0], KINDS[5]] if tier == "quick" else KINDS
     for k in k2:
         jobs += [("hist", "one-object+setup'", (k,), h) for h in lv2]
-    subs.append(("one object, alphabet {S,S',I,N,P,F} (re-setup with a different script): all histories to depth %d (%d) x %d kinds"
+    subs.append(("one object, alphabet {S,S',I,N,Z=iterate_n(0),P,F} (re-setup with a different script, empty batches): all histories to depth %d (%d) x %d kinds"
                  % (d2, npre2, len(k2)), npre2 * len(k2), len(lv2) * len(k2)))
     d3 = 4
     lv3, npre3 = lc.leaves("SINPF", 2, d3)
